@@ -1588,3 +1588,195 @@ Proof.
   destruct reorder; [|exact H1].
   eapply Permutation_trans; [apply concat_map_sort_perm|exact H1].
 Qed.
+
+(* ------------------------------------------------------------------ *)
+(* normalize keeps aliases on last segments *)
+Section NormShape.
+Variable cmp : tree -> tree -> comparison.
+
+Lemma norm_simple_alias_last P v a c :
+  alias_free (removelast P) = true -> alias_last (norm_simple P v a c) = true.
+Proof.
+  intros H. unfold norm_simple.
+  destruct (rev P) as [|last rq] eqn:Er; [exact H|].
+  apply rev_cons_eq in Er. subst P. rewrite removelast_snoc in H.
+  destruct (negb (is_some a) && _); [reflexivity|].
+  assert (Hd : alias_last (Node (rev rq ++ [last]) None v a c) = true).
+  { cbn [alias_last]. rewrite removelast_snoc. exact H. }
+  destruct last as [n al|[b|]|al|al|]; try exact Hd.
+  - destruct rq as [|[n [al|]|al|al|al|] rq']; try exact Hd.
+    cbn [alias_last]. rewrite removelast_snoc. cbn [rev] in H.
+    rewrite alias_free_app in H. apply andb_true_iff in H. tauto.
+  - destruct rq as [|t rq']; [exact Hd|].
+    cbn [alias_last]. apply alias_free_removelast. exact H.
+Qed.
+
+Lemma norm_alias_last t : forall acc v a c,
+  alias_free acc = true -> alias_last t = true -> alias_last (norm cmp acc v a c t) = true.
+Proof.
+  induction t as [p v0 a0 c0|p l v0 a0 c0 IH] using tree_ind'; intros acc v a c Hacc Ht.
+  - cbn [norm kids pre]. apply norm_simple_alias_last. cbn [alias_last] in Ht.
+    destruct p as [|s p'].
+    + rewrite app_nil_r. apply alias_free_removelast; assumption.
+    + rewrite removelast_app by discriminate. rewrite alias_free_app, Hacc. exact Ht.
+  - cbn [alias_last] in Ht. apply andb_true_iff in Ht. destruct Ht as [Hp Hl].
+    assert (HP : alias_free (acc ++ p) = true) by (rewrite alias_free_app, Hacc, Hp; reflexivity).
+    rewrite Forall_forall in IH. rewrite forallb_forall in Hl.
+    assert (Hgen : alias_last (Node (acc ++ p)
+               (Some (sort_by cmp (map (fun k => norm cmp [] (vis k) (attrs k) (cmt k) k) l))) v a c)
+               = true).
+    { cbn [alias_last]. rewrite HP. cbn [andb].
+      rewrite (forallb_perm _ _ _ (sort_perm _ cmp _)). apply forallb_forall.
+      intros x Hx. apply in_map_iff in Hx. destruct Hx as [k [<- Hk]].
+      apply IH; auto. }
+    cbn [norm kids pre]. destruct l as [|k [|k2 r]].
+    + destruct (is_some a); [|reflexivity]. cbn [sort_by fold_right alias_last forallb].
+      rewrite HP. reflexivity.
+    + destruct (negb (is_self_string k) && negb (has_comment k)); [|exact Hgen].
+      apply IH; [left; reflexivity|assumption|]. apply Hl. left. reflexivity.
+    + exact Hgen.
+Qed.
+
+Lemma normalize_alias_last t : alias_last t = true -> alias_last (normalize cmp t) = true.
+Proof. intros H. unfold normalize. apply norm_alias_last; auto. Qed.
+End NormShape.
+
+(* ------------------------------------------------------------------ *)
+(* the final statements *)
+Section Final.
+Variable cmp : tree -> tree -> comparison.
+
+Lemma ast_shape_inv t :
+  ast_shape t = true -> alias_last t = true /\ kids_wf t = true.
+Proof.
+  unfold ast_shape, kids_wf. intros H. apply andb_true_iff in H. destruct H as [H1 H2].
+  apply andb_true_iff in H1. tauto.
+Qed.
+
+Lemma normalized_leaves ts :
+  forallb ast_shape ts = true ->
+  SameSet (Leaves (map (normalize cmp) ts)) (Leaves ts).
+Proof.
+  intros H. unfold Leaves. rewrite flat_map_map. apply SameSet_flat_map.
+  apply Forall_forall. intros t Ht. apply normalize_leaves.
+  rewrite forallb_forall in H. pose proof (ast_shape_inv t (H t Ht)). tauto.
+Qed.
+
+Lemma normalized_shape ts :
+  forallb ast_shape ts = true -> NestedEmptyList (map (normalize cmp) ts) = false ->
+  Forall (fun t => shape t = true) (map (normalize cmp) ts).
+Proof.
+  intros H Hn. apply Forall_forall. intros n Hn'. apply in_map_iff in Hn'.
+  destruct Hn' as [t [<- Ht]]. unfold shape.
+  rewrite forallb_forall in H. destruct (ast_shape_inv t (H t Ht)) as [Ha _].
+  rewrite (normalize_alias_last cmp t Ha), andb_true_r.
+  unfold NestedEmptyList in Hn.
+  destruct (no_empty_kid (normalize cmp t)) eqn:E; auto. exfalso.
+  assert (Hx : existsb (fun t => negb (no_empty_kid t)) (map (normalize cmp) ts) = true).
+  { apply existsb_exists. exists (normalize cmp t). split; [apply in_map; assumption|].
+    rewrite E. reflexivity. }
+  congruence.
+Qed.
+
+Theorem granularity_leaves g ts :
+  forallb ast_shape ts = true -> BadClass cmp g ts = false ->
+  SameSet (Leaves (with_granularity cmp g (map (normalize cmp) ts))) (Leaves ts).
+Proof.
+  intros Hs Hb. eapply SameSet_trans; [|apply normalized_leaves; assumption].
+  unfold BadClass in Hb.
+  destruct g; cbn [with_granularity].
+  - apply SameSet_refl.
+  - apply orb_false_iff in Hb. destruct Hb as [Hb H3]. apply orb_false_iff in Hb.
+    destruct Hb as [H1 H2]. apply item_leaves; auto. apply normalized_shape; assumption.
+  - apply orb_false_iff in Hb. destruct Hb as [H1 H2].
+    apply regroup_leaves; auto. apply normalized_shape; assumption.
+  - apply orb_false_iff in Hb. destruct Hb as [H1 H2].
+    apply regroup_leaves; auto. apply normalized_shape; assumption.
+  - apply orb_false_iff in Hb. destruct Hb as [H1 H2].
+    apply regroup_leaves; auto. apply normalized_shape; assumption.
+Qed.
+
+Theorem pipeline_leaves g grp reorder ts :
+  forallb ast_shape ts = true -> BadClass cmp g ts = false ->
+  SameSet (Leaves (concat (pipeline cmp g grp reorder ts))) (Leaves ts).
+Proof.
+  intros Hs Hb. eapply SameSet_trans; [apply Leaves_perm, pipeline_perm|].
+  apply granularity_leaves; assumption.
+Qed.
+
+Lemma leaves_cls t lf : In lf (leaves t) -> (fst (fst lf), snd (fst lf)) = cls t.
+Proof.
+  unfold leaves. intros H. apply in_map_iff in H. destruct H as [p [<- _]]. reflexivity.
+Qed.
+
+Theorem no_cross_class g grp reorder ts o lf :
+  forallb ast_shape ts = true -> BadClass cmp g ts = false ->
+  In o (concat (pipeline cmp g grp reorder ts)) -> In lf (leaves o) ->
+  exists t, In t ts /\ In lf (leaves t) /\ cls t = cls o.
+Proof.
+  intros Hs Hb Ho Hlf.
+  assert (H : In lf (Leaves (concat (pipeline cmp g grp reorder ts)))).
+  { unfold Leaves. apply in_flat_map. exists o. auto. }
+  apply (pipeline_leaves g grp reorder ts Hs Hb) in H.
+  unfold Leaves in H. apply in_flat_map in H. destruct H as [t [Ht Hl]].
+  exists t. repeat split; auto.
+  rewrite <- (leaves_cls t lf Hl), <- (leaves_cls o lf Hlf). reflexivity.
+Qed.
+
+(* a tree with attributes or a comment is passed through unchanged *)
+Definition passthrough (t : tree) : bool := contains_comment t || is_some (attrs t).
+
+Lemma passthrough_no_share t f m : passthrough t = true -> share_prefix t f m = false.
+Proof.
+  unfold passthrough, share_prefix. intros H.
+  destruct (path_is_empty t); [reflexivity|]. destruct (path_is_empty f); [reflexivity|].
+  cbn [orb]. apply orb_true_iff in H. destruct H as [H|H]; rewrite H.
+  - destruct (is_some (attrs t)); reflexivity.
+  - reflexivity.
+Qed.
+
+Lemma add_ev_keeps m t res e :
+  passthrough t = true -> In t res -> In t (add_ev cmp m res e).
+Proof.
+  intros Hp Hin. destruct e as [x|f]; cbn [add_ev].
+  - apply in_or_app. auto.
+  - unfold add_flattened. destruct (find_index _ 0 res) as [i|] eqn:Ef.
+    + apply find_index_spec in Ef. destruct Ef as [_ [r [En Hsh]]]. rewrite Nat.sub_0_r in En.
+      destruct (apply_at_split (fun t => merge cmp m t f) (fun _ => true) res i r En)
+        as [l1 [l2 [E1 [E2 _]]]].
+      rewrite E2. rewrite E1 in Hin. apply in_app_or in Hin. apply in_or_app.
+      destruct Hin as [H|[H|H]]; auto.
+      * subst r. rewrite (passthrough_no_share t f m Hp) in Hsh. discriminate.
+      * right. right. assumption.
+    + apply in_or_app. auto.
+Qed.
+
+Lemma fold_add_ev_keeps m t es : forall res,
+  passthrough t = true -> In t res -> In t (fold_left (add_ev cmp m) es res).
+Proof.
+  induction es as [|e es IH]; intros res Hp Hin; cbn [fold_left]; auto.
+  apply IH; auto. apply add_ev_keeps; assumption.
+Qed.
+
+Lemma regroup_passthrough m ns t :
+  In t ns -> passthrough t = true -> In t (regroup cmp m ns).
+Proof.
+  intros Hin Hp. rewrite regroup_events.
+  apply in_split in Hin. destruct Hin as [l1 [l2 E]]. subst ns.
+  rewrite flat_map_app, fold_left_app. cbn [flat_map]. rewrite fold_left_app.
+  apply fold_add_ev_keeps; [assumption|].
+  assert (E : events t = [EPass t]).
+  { unfold events. unfold passthrough in Hp. rewrite Hp. reflexivity. }
+  rewrite E. cbn [fold_left add_ev].
+  apply in_or_app. right. left. reflexivity.
+Qed.
+
+Theorem attrs_comment_passthrough g grp reorder ts t :
+  g <> Item -> In t (map (normalize cmp) ts) -> passthrough t = true ->
+  In t (concat (pipeline cmp g grp reorder ts)).
+Proof.
+  intros Hg Hin Hp.
+  eapply Permutation_in; [apply Permutation_sym, pipeline_perm|].
+  destruct g; cbn [with_granularity]; try congruence; auto using regroup_passthrough.
+Qed.
+End Final.
